@@ -3,7 +3,7 @@
    than the b-combination of the committed rows can agree with the committed columns on fewer than n_cols positions of
    the n_ext = rho_inv * n_cols positions of the codeword (the distance the number of queries is computed from). *)
 From Coq Require Import List Arith NArith Bool Lia Field Ring.
-From PC Require Import Base.Field Base.Result Base.Poly Proofs.PolyFacts Schemes.CalcT Proofs.CalcTFacts Schemes.Ligero.
+From PC Require Import Base.Field Base.Result Base.Poly Proofs.PolyFacts Schemes.CalcT Proofs.CalcTFacts Schemes.Ligero Schemes.MLPC Proofs.MLPCFacts.
 Import ListNotations.
 Open Scope F_scope.
 
@@ -108,41 +108,64 @@ Section LigeroFacts.
     rewrite (column_check_complete omega n_ext n_cols rows v q Hr Hq). apply feqb_refl.
   Qed.
 
+  Theorem ligero_complete_g wf n_cols n_ext omega rows b r idx pf a :
+    Forall (fun r => (length r <= n_cols)%nat) rows ->
+    l_open_g wf n_cols n_ext omega rows b r idx = Ok pf ->
+    l_check_g wf n_cols n_ext omega (map (encode omega n_ext) rows) a b (ip (lf_v pf) a) pf r idx = Ok true.
+  Proof.
+    intros Hr H. unfold l_open_g in H.
+    assert (Hrm : forall v, row_mul rows n_cols v = if negb (length v =? length rows)%nat then Panic else Ok (rowcomb rows n_cols v))
+      by reflexivity.
+    destruct wf.
+    - rewrite !Hrm in H. destruct (negb (length r =? length rows)%nat); cbn [bind] in H; [discriminate|].
+      destruct (negb (length b =? length rows)%nat); cbn [bind] in H; [discriminate|].
+      destruct (existsb _ idx) eqn:Ex; [discriminate|]. injection H as <-.
+      assert (Hi : Forall (fun i => (i < n_ext)%nat) idx).
+      { apply Forall_forall. intros i Hin. destruct (Nat.ltb_spec i n_ext) as [|Hge]; [assumption|].
+        assert (existsb (fun i => (n_ext <=? i)%nat) idx = true) by (apply existsb_exists; exists i; split; [exact Hin|apply Nat.leb_le; exact Hge]).
+        congruence. }
+      unfold l_check_g. cbn [lf_v lf_wf lf_cols lf_paths].
+      unfold rowcomb at 1. rewrite map_length, seq_length, Nat.eqb_refl. cbn [negb bind].
+      unfold rowcomb at 1. rewrite map_length, seq_length, Nat.eqb_refl. cbn [negb bind].
+      rewrite path_loop_honest. cbn [bind].
+      pose proof (ip_loop_honest omega n_ext n_cols rows [r; b] idx Hr Hi) as E. cbn [map] in E.
+      rewrite E. cbn [bind]. rewrite feqb_refl. reflexivity.
+    - cbn [bind] in H. rewrite !Hrm in H.
+      destruct (negb (length b =? length rows)%nat); cbn [bind] in H; [discriminate|].
+      destruct (existsb _ idx) eqn:Ex; [discriminate|]. injection H as <-.
+      assert (Hi : Forall (fun i => (i < n_ext)%nat) idx).
+      { apply Forall_forall. intros i Hin. destruct (Nat.ltb_spec i n_ext) as [|Hge]; [assumption|].
+        assert (existsb (fun i => (n_ext <=? i)%nat) idx = true) by (apply existsb_exists; exists i; split; [exact Hin|apply Nat.leb_le; exact Hge]).
+        congruence. }
+      unfold l_check_g. cbn [lf_v lf_wf lf_cols lf_paths].
+      unfold rowcomb at 1. rewrite map_length, seq_length, Nat.eqb_refl. cbn [negb bind].
+      rewrite path_loop_honest. cbn [bind].
+      pose proof (ip_loop_honest omega n_ext n_cols rows [b] idx Hr Hi) as E. cbn [map] in E.
+      rewrite E. cbn [bind]. rewrite feqb_refl. reflexivity.
+  Qed.
+
   Theorem ligero_complete wf n_rows n_cols n_ext omega rows z r idx pf :
     length rows = n_rows -> Forall (fun r => (length r <= n_cols)%nat) rows ->
     l_open wf n_rows n_cols n_ext omega rows z r idx = Ok pf ->
     l_check wf n_rows n_cols n_ext omega (map (encode omega n_ext) rows) z
             (ip (lf_v pf) (fst (tensor_uni z n_cols n_rows))) pf r idx = Ok true.
+  Proof. intros _ Hr H. unfold l_open in H. unfold l_check. apply ligero_complete_g; assumption. Qed.
+
+  (* multilinear Ligero: the same, with the two tensor vectors of the point *)
+  Theorem ligero_ml_complete wf n_cols n_ext omega rows point r idx pf a b :
+    Forall (fun r => (length r <= n_cols)%nat) rows ->
+    tensor_ml point n_cols = Ok (a, b) ->
+    l_open_ml wf n_cols n_ext omega rows point r idx = Ok pf ->
+    l_check_ml wf n_cols n_ext omega (map (encode omega n_ext) rows) point (ip (lf_v pf) a) pf r idx = Ok true.
   Proof.
-    intros Ln Hr H. unfold l_open in H. cbn [tensor_uni] in H.
-    assert (Hrm : forall v, row_mul rows n_cols v = if negb (length v =? length rows)%nat then Panic else Ok (rowcomb rows n_cols v))
-      by reflexivity.
-    destruct wf.
-    - rewrite !Hrm in H. destruct (negb (length r =? length rows)%nat); cbn [bind] in H; [discriminate|].
-      destruct (negb (length (powers (fpow z n_cols) n_rows) =? length rows)%nat); cbn [bind] in H; [discriminate|].
-      destruct (existsb _ idx) eqn:Ex; [discriminate|]. injection H as <-.
-      assert (Hi : Forall (fun i => (i < n_ext)%nat) idx).
-      { apply Forall_forall. intros i Hin. destruct (Nat.ltb_spec i n_ext) as [|Hge]; [assumption|].
-        assert (existsb (fun i => (n_ext <=? i)%nat) idx = true) by (apply existsb_exists; exists i; split; [exact Hin|apply Nat.leb_le; exact Hge]).
-        congruence. }
-      unfold l_check. cbn [lf_v lf_wf lf_cols lf_paths tensor_uni fst].
-      unfold rowcomb at 1. rewrite map_length, seq_length, Nat.eqb_refl. cbn [negb bind].
-      unfold rowcomb at 1. rewrite map_length, seq_length, Nat.eqb_refl. cbn [negb bind].
-      rewrite path_loop_honest. cbn [bind].
-      pose proof (ip_loop_honest omega n_ext n_cols rows [r; powers (fpow z n_cols) n_rows] idx Hr Hi) as E. cbn [map] in E.
-      rewrite E. cbn [bind]. rewrite feqb_refl. reflexivity.
-    - cbn [bind] in H. rewrite !Hrm in H.
-      destruct (negb (length (powers (fpow z n_cols) n_rows) =? length rows)%nat); cbn [bind] in H; [discriminate|].
-      destruct (existsb _ idx) eqn:Ex; [discriminate|]. injection H as <-.
-      assert (Hi : Forall (fun i => (i < n_ext)%nat) idx).
-      { apply Forall_forall. intros i Hin. destruct (Nat.ltb_spec i n_ext) as [|Hge]; [assumption|].
-        assert (existsb (fun i => (n_ext <=? i)%nat) idx = true) by (apply existsb_exists; exists i; split; [exact Hin|apply Nat.leb_le; exact Hge]).
-        congruence. }
-      unfold l_check. cbn [lf_v lf_wf lf_cols lf_paths tensor_uni fst].
-      unfold rowcomb at 1. rewrite map_length, seq_length, Nat.eqb_refl. cbn [negb bind].
-      rewrite path_loop_honest. cbn [bind].
-      pose proof (ip_loop_honest omega n_ext n_cols rows [powers (fpow z n_cols) n_rows] idx Hr Hi) as E. cbn [map] in E.
-      rewrite E. cbn [bind]. rewrite feqb_refl. reflexivity.
+    intros Hr Ht H. unfold l_open_ml in H. rewrite Ht in H. cbn [bind snd] in H.
+    pose proof (ligero_complete_g wf n_cols n_ext omega rows b r idx pf a Hr H) as C.
+    unfold l_check_ml. rewrite Ht. cbn [bind fst snd].
+    unfold l_check_g in C |- *.
+    destruct (negb (length (lf_v pf) =? n_cols)%nat); [discriminate|].
+    match type of C with context [bind ?X _] => destruct X as [out| |] end; cbn [bind] in C |- *; try discriminate.
+    destruct (path_loop _ (lf_cols pf) idx (lf_paths pf)) as [[]| |]; cbn [bind] in C |- *; try discriminate.
+    exact C.
   Qed.
   (* ---------------- the value is p(z) ---------------- *)
   Lemma ip_powers_from : forall (p : list F) cur z, ip p (powers_from cur z (length p)) = cur * eval p z.
@@ -259,18 +282,17 @@ Section LigeroFacts.
 
   (* whatever the proof, if the verifier's loops pass and the sent vector is not the b-combination of the committed rows,
      the queried indices contain fewer than n_cols distinct positions (out of n_ext) *)
-  Theorem ligero_few_agreements wf n_rows n_cols n_ext omega rows z value pf r idx res :
+  Theorem ligero_few_agreements_g wf n_cols n_ext omega rows a b value pf r idx res :
     NoDup (dom omega n_ext) -> Forall (fun r => (length r <= n_cols)%nat) rows ->
     Forall (fun i => (i < n_ext)%nat) idx ->
-    l_check wf n_rows n_cols n_ext omega (map (encode omega n_ext) rows) z value pf r idx = Ok res ->
-    (exists x, eval (lf_v pf) x <> eval (rowcomb rows n_cols (snd (tensor_uni z n_cols n_rows))) x) ->
+    l_check_g wf n_cols n_ext omega (map (encode omega n_ext) rows) a b value pf r idx = Ok res ->
+    (exists x, eval (lf_v pf) x <> eval (rowcomb rows n_cols b) x) ->
     forall J, NoDup J -> incl J idx -> (length J < n_cols)%nat.
   Proof.
-    intros Hd Hr Hi H Hx J HJ Hinc. unfold l_check in H.
+    intros Hd Hr Hi H Hx J HJ Hinc. unfold l_check_g in H.
     destruct (Nat.eqb_spec (length (lf_v pf)) n_cols) as [Lv|]; cbn [negb] in H; [|discriminate].
     match type of H with context [bind ?X _] => destruct X as [out| |] eqn:Eo end; cbn [bind] in H; try discriminate.
     destruct (path_loop _ (lf_cols pf) idx (lf_paths pf)) as [[]| |] eqn:Ep; cbn [bind] in H; try discriminate.
-    cbn [tensor_uni snd] in *. set (b := powers (fpow z n_cols) n_rows) in *.
     match type of H with context [ip_loop ?V _ _] => destruct (ip_loop V (lf_cols pf) idx) as [[]| |] eqn:Ei end; cbn [bind] in H; try discriminate.
     assert (Hin : In (b, encode omega n_ext (lf_v pf))
                      (match out with Some wfv => [(r, encode omega n_ext wfv); (b, encode omega n_ext (lf_v pf))] | None => [(b, encode omega n_ext (lf_v pf))] end))
@@ -307,19 +329,18 @@ Section LigeroFacts.
     destruct (Nat.lt_trichotomy i j) as [L|[L|L]]; [exfalso; exact (W i j L Hj E)|exact L|exfalso; exact (W j i L Hi (eq_sym E))].
   Qed.
   (* the same for the well-formedness vector: it is r^T M or the queries miss the distance *)
-  Theorem ligero_wf_few_agreements n_rows n_cols n_ext omega rows z value pf r idx res wfv :
+  Theorem ligero_wf_few_agreements_g n_cols n_ext omega rows a b value pf r idx res wfv :
     NoDup (dom omega n_ext) -> Forall (fun r => (length r <= n_cols)%nat) rows ->
     Forall (fun i => (i < n_ext)%nat) idx ->
-    l_check true n_rows n_cols n_ext omega (map (encode omega n_ext) rows) z value pf r idx = Ok res ->
+    l_check_g true n_cols n_ext omega (map (encode omega n_ext) rows) a b value pf r idx = Ok res ->
     lf_wf pf = Some wfv ->
     (exists x, eval wfv x <> eval (rowcomb rows n_cols r) x) ->
     forall J, NoDup J -> incl J idx -> (length J < n_cols)%nat.
   Proof.
-    intros Hd Hr Hi H Hw Hx J HJ Hinc. unfold l_check in H. rewrite Hw in H.
+    intros Hd Hr Hi H Hw Hx J HJ Hinc. unfold l_check_g in H. rewrite Hw in H.
     destruct (Nat.eqb_spec (length (lf_v pf)) n_cols) as [Lv|]; cbn [negb] in H; [|discriminate].
     destruct (Nat.eqb_spec (length wfv) n_cols) as [Lw|]; cbn [negb bind] in H; [|discriminate].
     destruct (path_loop _ (lf_cols pf) idx (lf_paths pf)) as [[]| |] eqn:Ep; cbn [bind] in H; try discriminate.
-    cbn [tensor_uni] in H. set (b := powers (fpow z n_cols) n_rows) in *.
     match type of H with context [ip_loop ?V _ _] => destruct (ip_loop V (lf_cols pf) idx) as [[]| |] eqn:Ei end; cbn [bind] in H; try discriminate.
     assert (Hin : In (r, encode omega n_ext wfv) [(r, encode omega n_ext wfv); (b, encode omega n_ext (lf_v pf))]) by (cbn; auto).
     pose proof (loops_agree _ _ r _ Hin idx _ _ Ep Ei) as Ag.
@@ -331,5 +352,125 @@ Section LigeroFacts.
     - intros q Hq. pose proof (Hinc q Hq) as Hq'. pose proof (proj1 (Forall_forall _ _) Hi q Hq') as Hlt.
       rewrite <- !nth_encode by exact Hlt. rewrite <- (Ag q Hq'). apply column_check_complete; assumption.
     - exact Hx.
+  Qed.
+  (* ---------------- univariate corollaries of the agreement bounds ---------------- *)
+  Theorem ligero_few_agreements wf n_rows n_cols n_ext omega rows z value pf r idx res :
+    NoDup (dom omega n_ext) -> Forall (fun r => (length r <= n_cols)%nat) rows ->
+    Forall (fun i => (i < n_ext)%nat) idx ->
+    l_check wf n_rows n_cols n_ext omega (map (encode omega n_ext) rows) z value pf r idx = Ok res ->
+    (exists x, eval (lf_v pf) x <> eval (rowcomb rows n_cols (snd (tensor_uni z n_cols n_rows))) x) ->
+    forall J, NoDup J -> incl J idx -> (length J < n_cols)%nat.
+  Proof. intros Hd Hr Hi H. unfold l_check in H. exact (ligero_few_agreements_g _ _ _ _ _ _ _ _ _ _ _ _ Hd Hr Hi H). Qed.
+
+  Theorem ligero_wf_few_agreements n_rows n_cols n_ext omega rows z value pf r idx res wfv :
+    NoDup (dom omega n_ext) -> Forall (fun r => (length r <= n_cols)%nat) rows ->
+    Forall (fun i => (i < n_ext)%nat) idx ->
+    l_check true n_rows n_cols n_ext omega (map (encode omega n_ext) rows) z value pf r idx = Ok res ->
+    lf_wf pf = Some wfv ->
+    (exists x, eval wfv x <> eval (rowcomb rows n_cols r) x) ->
+    forall J, NoDup J -> incl J idx -> (length J < n_cols)%nat.
+  Proof. intros Hd Hr Hi H. unfold l_check in H. exact (ligero_wf_few_agreements_g _ _ _ _ _ _ _ _ _ _ _ _ Hd Hr Hi H). Qed.
+
+  (* ---------------- multilinear Ligero: the value is the multilinear extension at the point ---------------- *)
+  Lemma ip_map_add {A} (f g : A -> F) : forall l a, ip (map (fun j => f j + g j) l) a = ip (map f l) a + ip (map g l) a.
+  Proof. induction l as [|j l IH]; intros [|y a]; cbn [map ip]; try ring. rewrite IH. ring. Qed.
+  Lemma ip_map_scale {A} (f : A -> F) c : forall l a, ip (map (fun j => c * f j) l) a = c * ip (map f l) a.
+  Proof. induction l as [|j l IH]; intros [|y a]; cbn [map ip]; try ring. rewrite IH. ring. Qed.
+  Lemma ip_map_zero {A} : forall (l : list A) a, ip (map (fun _ => 0) l) a = 0.
+  Proof. induction l as [|j l IH]; intros [|y a]; cbn [map ip]; try ring. rewrite IH. ring. Qed.
+  Lemma ip_row_pad n r a : length r = n -> ip (map (fun j => nth j r 0) (seq 0 n)) a = ip r a.
+  Proof. intros H. rewrite map_nth_seq, firstn_all2, H, Nat.sub_diag by lia. cbn [repeat]. rewrite app_nil_r. reflexivity. Qed.
+
+  Lemma row_comb_ip n a : forall (v : list F) (rows : list (list F)),
+    Forall (fun r => length r = n) rows ->
+    ip (map (fun j => ip v (col j rows)) (seq 0 n)) a = ip v (map (fun r => ip r a) rows).
+  Proof.
+    induction v as [|c v IH]; intros rows Hr.
+    - cbn [ip]. apply ip_map_zero.
+    - destruct rows as [|r rows]; [cbn [col map ip]; apply ip_map_zero|].
+      inversion Hr as [|? ? Hr1 Hr2]; subst.
+      cbn [col map ip]. fold (col 0 rows).
+      transitivity (ip (map (fun j => c * nth j r 0 + ip v (col j rows)) (seq 0 (length r))) a); [reflexivity|].
+      rewrite (ip_map_add (fun j => c * nth j r 0) (fun j => ip v (col j rows))), ip_map_scale, ip_row_pad, IH by auto.
+      reflexivity.
+  Qed.
+
+  Definition tv_step (layer : list F) (v : F) : list F := map (fun e => e * (1 - v)) layer ++ map (fun e => e * v) layer.
+  Lemma tensor_vec_unfold values : tensor_vec values = fold_left tv_step values [1].
+  Proof. reflexivity. Qed.
+
+  Lemma outer_step (layer : list F) v c :
+    map (fun e => e * c) (tv_step layer v)
+    = concat (map (fun c' => map (fun e => e * c') layer) (map (fun e => e * c) (tv_step [1] v))).
+  Proof.
+    unfold tv_step. cbn [map app concat]. rewrite map_app, !map_map, app_nil_r.
+    f_equal; apply map_ext; intros e; ring.
+  Qed.
+
+  (* the tensor of a concatenation is the outer product, the later variables in the high positions *)
+  Lemma tv_fold_outer : forall (r : list F) (layer : list F),
+    fold_left tv_step r layer = concat (map (fun c => map (fun e => e * c) layer) (fold_left tv_step r [1])).
+  Proof.
+    induction r as [|v r IH]; intros layer.
+    - cbn [fold_left map concat]. rewrite app_nil_r. rewrite <- (map_id layer) at 1. apply map_ext. intros e. ring.
+    - cbn [fold_left]. rewrite (IH (tv_step layer v)), (IH (tv_step [1] v)).
+      generalize (fold_left tv_step r [1]). intros cs.
+      induction cs as [|c cs IHc]; [reflexivity|].
+      cbn [map concat]. rewrite outer_step, IHc, map_app, concat_app. reflexivity.
+  Qed.
+
+  Lemma tensor_vec_app l r :
+    tensor_vec (l ++ r) = concat (map (fun c => map (fun e => e * c) (tensor_vec l)) (tensor_vec r)).
+  Proof. rewrite !tensor_vec_unfold, fold_left_app. apply tv_fold_outer. Qed.
+
+  Lemma ip_scaled a c : forall r : list F, ip r (map (fun e => e * c) a) = c * ip r a.
+  Proof.
+    revert a. intros a r. revert a. induction r as [|x r IH]; intros [|y a]; cbn [map ip]; try ring. rewrite IH. ring.
+  Qed.
+  Lemma ip_app_eq : forall (a1 b1 a2 b2 : list F), length a1 = length b1 -> ip (a1 ++ a2) (b1 ++ b2) = ip a1 b1 + ip a2 b2.
+  Proof.
+    induction a1 as [|x a1 IH]; intros [|y b1] a2 b2 H; cbn in H; try lia; cbn [app ip]; [ring|]. rewrite IH by lia. ring.
+  Qed.
+  Lemma ip_concat_outer (a : list F) : forall (rows : list (list F)) (b : list F),
+    Forall (fun r => length r = length a) rows ->
+    ip (concat rows) (concat (map (fun c => map (fun e => e * c) a) b)) = ip b (map (fun r => ip r a) rows).
+  Proof.
+    induction rows as [|r rows IH]; intros [|c b] Hr; cbn [concat map ip]; try reflexivity.
+    - destruct (concat rows); destruct r; reflexivity.
+    - inversion Hr as [|? ? Hr1 Hr2]; subst.
+      rewrite ip_app_eq by (rewrite map_length; exact Hr1). rewrite ip_scaled, IH by exact Hr2. ring.
+  Qed.
+
+  (* <b^T M, a> = <evaluations, tensor of the whole point>: the multilinear extension at the point *)
+  Theorem ligero_ml_value n_cols (rows : list (list F)) (lpt rpt : list F) :
+    Forall (fun r => length r = n_cols) rows -> length (tensor_vec lpt) = n_cols ->
+    ip (rowcomb rows n_cols (tensor_vec rpt)) (tensor_vec lpt) = ip (concat rows) (tensor_vec (lpt ++ rpt)).
+  Proof.
+    intros Hr La. unfold rowcomb. rewrite row_comb_ip by exact Hr.
+    rewrite tensor_vec_app, ip_concat_outer; [reflexivity|].
+    eapply Forall_impl; [|exact Hr]. cbn. intros r0 E. rewrite E, La. reflexivity.
+  Qed.
+  Lemma tensor_vec_eq_table : forall t : list F, tensor_vec t = eq_table t.
+  Proof.
+    induction t as [|t0 ts IH]; [reflexivity|].
+    rewrite tensor_vec_unfold. cbn [fold_left]. rewrite tv_fold_outer, <- tensor_vec_unfold, IH.
+    cbn [eq_table]. rewrite flat_map_concat_map. f_equal. apply map_ext. intros c.
+    unfold tv_step. cbn [map app]. f_equal; [ring|]. f_equal. ring.
+  Qed.
+  Lemma ip_msm : forall a b : list F, ip a b = msm b a.
+  Proof. induction a as [|x a IH]; intros [|y b]; cbn [ip msm]; try ring. rewrite IH. ring. Qed.
+
+  (* the value the multilinear verifier compares with: the multilinear extension of the committed evaluations *)
+  Theorem ligero_ml_value_mle n_cols (rows : list (list F)) (lpt rpt : list F) :
+    Forall (fun r => length r = n_cols) rows -> n_cols = (2 ^ length lpt)%nat ->
+    length (concat rows) = (2 ^ length (lpt ++ rpt))%nat ->
+    ip (rowcomb rows n_cols (tensor_vec rpt)) (tensor_vec lpt) = mle_eval (concat rows) (lpt ++ rpt).
+  Proof.
+    intros Hr Hn Hl. rewrite ligero_ml_value by (try exact Hr; rewrite tensor_vec_eq_table, eq_table_length; symmetry; exact Hn).
+    rewrite tensor_vec_eq_table, ip_msm.
+    pose proof (msm_eq_table 1 (lpt ++ rpt) (concat rows) Hl) as E.
+    replace (map (fun e => 1 * e) (eq_table (lpt ++ rpt))) with (eq_table (lpt ++ rpt)) in E
+      by (rewrite <- (map_id (eq_table (lpt ++ rpt))) at 1; apply map_ext; intros e; ring).
+    rewrite E. ring.
   Qed.
 End LigeroFacts.
